@@ -65,10 +65,11 @@ static const double WIDEVAL[3] = { 1e-12, 1.0, 1e12 };
 static const double SCALEVAL[3] = { 1e-8, 1.0, 1e8 };
 
 enum { FAM_FULL, FAM_DENSE, FAM_GRADED, FAM_WIDE, FAM_PERM, FAM_SCALE,
-       FAM_SING, FAM_NEARTRI, NFAM };
+       FAM_SING, FAM_NEARTRI, FAM_ILLCOND, NFAM };
 static const char *fam_name[NFAM] = {
     "full-alphabet", "dense", "graded", "wide-range-row", "row-permutation",
-    "row-scaling", "exactly-singular", "near-triangular"
+    "row-scaling", "exactly-singular", "near-triangular",
+    "ill-conditioned-consistent"
 };
 
 enum { P_LU, P_MLD, P_MRD, P_MINV, P_ZTOY, P_YTOZ, P_STOZ, P_ZTOS, P_STOY,
@@ -96,6 +97,9 @@ typedef struct {
     int transformed;
     int kind;
     int bseed;			/* stream for right-hand sides */
+    int consistent;		/* right-hand sides are A times moderate X0
+				   (or X0 times A): judged however small the
+				   oracle's pivot ratio is */
     char desc[200];
 } sys_t;
 
@@ -437,6 +441,8 @@ static long fam_count(int tier, int fam, int n)
     case FAM_SCALE:
 	if (n <= scale_full(tier)) return (long)kb * ipow(3, n);
 	return (long)kb * n * 2;
+    case FAM_ILLCOND:
+	return (n >= 2 && n <= 4) ? 5L * 4 : 0;
     case FAM_SING:
 	/* zero row, zero col, dup rows, dup cols, rank n-1 products */
 	return 2L * (2 * n + (n >= 2 ? n * (n - 1) : 0) +
@@ -463,11 +469,56 @@ static void gen_system(int tier, int fam, int n, long idx, sys_t *s)
     s->kind = K_REGULAR;
     s->transformed = 0;
     s->bseed = (int)(idx % 5);
+    s->consistent = 0;
     for (int i = 0; i < n; ++i) {
 	s->perm[i] = i;
 	s->d[i] = 1.0;
     }
     switch (fam) {
+    case FAM_ILLCOND: {
+	/*
+	 * A = Q1 diag(1, sigma, 1, sigma) Q2 with Q1, Q2 products of plane
+	 * rotations with complex phases: entries of order one in every row,
+	 * condition number 1/sigma.  Regular however small sigma is; the
+	 * right-hand sides are made from a moderate solution.
+	 */
+	static const double sig[5] = { 1e-4, 1e-6, 1e-8, 1e-10, 1e-12 };
+	int si = (int)(idx % 5), av = (int)(idx / 5);
+	lc_t Q1[NSQ * NSQ], Q2[NSQ * NSQ], T[NSQ * NSQ];
+	for (int q = 0; q < 2; ++q) {
+	    lc_t *Q = q ? Q2 : Q1;
+	    for (int i = 0; i < n * n; ++i)
+		Q[i] = (i / n == i % n) ? 1.0L : 0.0L;
+	    for (int a = 0; a + 1 < n; ++a)
+		for (int b = a + 1; b < n; ++b) {
+		    long double th = 0.4L + 0.37L * av + 0.61L * q +
+			0.23L * a + 0.11L * b;
+		    lc_t cs = cosl(th), sn = sinl(th) *
+			cexpl(I * (0.3L * (av + 1) + 0.2L * b));
+		    for (int j = 0; j < n; ++j) {
+			lc_t x = Q[a * n + j], y = Q[b * n + j];
+			Q[a * n + j] = cs * x - conjl(sn) * y;
+			Q[b * n + j] = sn * x + cs * y;
+		    }
+		}
+	}
+	for (int i = 0; i < n; ++i)
+	    for (int j = 0; j < n; ++j)
+		T[i * n + j] = Q1[i * n + j] *
+		    ((j & 1) ? (long double)sig[si] : 1.0L);
+	for (int i = 0; i < n; ++i)
+	    for (int j = 0; j < n; ++j) {
+		lc_t sum = 0;
+		for (int k = 0; k < n; ++k)
+		    sum += T[i * n + k] * Q2[k * n + j];
+		m0[i * n + j] = (dc)sum;
+	    }
+	s->consistent = 1;
+	snprintf(s->desc, sizeof(s->desc), "rotations #%d around "
+		"diag(1, %g, ...): condition number %g, consistent "
+		"right-hand sides", av, sig[si], 1.0 / sig[si]);
+	break;
+    }
     case FAM_FULL: {
 	int a = full_alpha(tier, n);
 	long t = idx;
@@ -746,7 +797,7 @@ static int judge_solve(ctx_t *c, const sys_t *s, int side, int o,
 	}
 	return 0;
     }
-    if (!(pr >= PR_MIN)) {
+    if (!(pr >= PR_MIN) && !(s->consistent && all_finite(X, n * o))) {
 	++c->skipped;
 	return 0;
     }
@@ -917,6 +968,19 @@ static void run_conv(ctx_t *c, const sys_t *s)
 static void gen_rhs(const sys_t *s, int o, dc *b0, dc *b)
 {
     int n = s->n;
+    if (s->consistent) {
+	/* B = A X0, X0 of order one, in long double, rounded once */
+	dc x0[NSQ * NSQ];
+	gen_dense(n, o, 700 + (uint64_t)s->bseed * 16 + (uint64_t)o, x0);
+	for (int r = 0; r < n; ++r)
+	    for (int j = 0; j < o; ++j) {
+		lc_t sum = 0;
+		for (int k = 0; k < n; ++k)
+		    sum += (lc_t)s->m[r * n + k] * (lc_t)x0[k * o + j];
+		b0[r * o + j] = b[r * o + j] = (dc)sum;
+	    }
+	return;
+    }
     gen_dense(n, o, 700 + (uint64_t)s->bseed * 16 + (uint64_t)o, b0);
     for (int r = 0; r < n; ++r)
 	for (int j = 0; j < o; ++j)
@@ -1047,6 +1111,18 @@ static void run_internal(ctx_t *c, const sys_t *s)
 	} else {
 	    /* X A = B, B is o x n and is not row-transformed with A */
 	    gen_dense(o, n, 800 + (uint64_t)s->bseed * 16 + (uint64_t)o, b);
+	    if (s->consistent) {
+		/* B = X0 A */
+		dc x0[NSQ * NSQ];
+		memcpy(x0, b, sizeof(dc) * (size_t)(o * n));
+		for (int i = 0; i < o; ++i)
+		    for (int j = 0; j < n; ++j) {
+			lc_t sum = 0;
+			for (int k = 0; k < n; ++k)
+			    sum += (lc_t)x0[i * n + k] * (lc_t)s->m[k * n + j];
+			b[i * n + j] = (dc)sum;
+		    }
+	    }
 	    to_lc(B, b, n * o);
 	    det = _vnacommon_mrdivide(x, b, a, o, n);
 	    if (v == 0)
@@ -1548,7 +1624,7 @@ static void run_apply(ctx_t *c, int tier, long first, long last)
 	    continue;
 	}
 	long double pr = pivot_ratio_roweq(2, A, NULL);
-	if (!(pr >= PR_MIN)) {
+	if (!(pr >= PR_MIN) && !(s.consistent && rc == 0)) {
 	    ++c->skipped;
 	    continue;
 	}
